@@ -360,6 +360,10 @@ def r_ptb(repo, rep, writer_only=False, RT='R20.6', RE='R20.5'):
     if not (len(red_c) == 1 and len(rec_c) == 1 and red_c[0] is not rec_c[0]):
         red_c, rec_c = [rm.get('_parse_ptb.reduce')], [rm.get('_parse_ptb.rec')]
     red = red_c[0]
+    # the closure that builds the nodes (Tree.make_binary): the one that makes the tokens, or one that calls it for the word
+    bld_c = by_call('Tree.make_binary')
+    if len(bld_c) == 1 and bld_c[0] is not rec_c[0]:
+        red = bld_c[0]
     it = red.args.args[0].arg
     inv_ok = False
     detail = ''
@@ -369,10 +373,16 @@ def r_ptb(repo, rep, writer_only=False, RT='R20.6', RE='R20.5'):
             wt = dict(toks[0][3]).get('word')
             base, pairs = codec.replace_chain(wt) if wt else (None, [])
             inv = {b: a for a, b in esc}
-            inv_ok = base == N(it) and dict(pairs) == inv and bool(esc)
+            # the word is the item itself (the bracket was cut off by the caller) or the item without its last character
+            inv_ok = base in (N(it), ('sub', N(it), ('slice', None, C(-1), None))) and dict(pairs) == inv and bool(esc)
             detail = 'reader %s, writer %s' % (pairs, esc)
             pushed = [e[1][2][0] for e in st.events if e[0] == 'call' and e[1][1][0] == 'attr' and e[1][1][2] == 'append' and e[1][1][1] == N('stack')]
             same = bool(pushed) and pushed[0] == wt
+            made = [e[1] for e in st.events if e[0] == 'call' and e[1][1] == A(N('Tree'), 'make_terminal')]
+            if made and not same:
+                # the terminal is made on the spot, from the word the token was given
+                same = bool(made[0][2]) and made[0][2][0] == wt
+                pushed = [made[0][2][0]] if made[0][2] else pushed
             rep.check(same, 'R20.5', wr, '_parse_ptb:word-consistent', 'the leaf is built from the same unescaped word as its token',
                       'the token holds %s but the leaf is built from %s' % (show(wt)[:50], show(pushed[0])[:50] if pushed else None))
     rep.check(inv_ok, 'R20.5', wr, '_parse_ptb:unescape', 'the reader applies the inverse of the writer\'s bracket escaping (%s)' % detail,
